@@ -502,6 +502,23 @@ class Context:
         base = self._globals.get("Error")
         if error_name != "Error" and isinstance(base, JSObject):
             error_prototype._prototype = base.get("prototype")
+        else:
+            from .values import JSBoundMethod
+
+            def error_to_string(this_val, *args):
+                # Error.prototype.toString: "name: message"
+                if not isinstance(this_val, JSObject):
+                    raise JSTypeError("Error.prototype.toString called on a non-object")
+                name = this_val.get("name")
+                name = "Error" if name is UNDEFINED else to_string(name)
+                message = this_val.get("message")
+                message = "" if message is UNDEFINED else to_string(message)
+                if not name or not message:
+                    return name or message
+                return f"{name}: {message}"
+
+            error_prototype._prototype = self._object_prototype
+            error_prototype.set("toString", JSBoundMethod(error_to_string))
 
         def error_constructor(*args):
             message = args[0] if args else UNDEFINED
